@@ -1,4 +1,6 @@
 import HexProofs.Manager.HA
+import HexProofs.Manager2.C11LifeSimple
+import HexProofs.Writes.C11LifeMembersFill
 import HexProofs.Manager2.C11LifeEx
 import HexProofs.Writes.C11DefaultEx
 import HexProofs.Writes.C11LifeMembers
@@ -510,5 +512,53 @@ example := @C11DefaultEx.applied0
 #print axioms default_schedule_tf_fill
 #print axioms member_life_schedule
 #print axioms default_life_schedule
+
+
+open Hex Hex.C03
+variable {F : Type} [PyF F]
+
+/-! ### Heikin-Ashi + lifespan on a gap-filled timeframe: a condition on the configuration alone
+(HexProofs/Manager2/C11LifeSimple.lean, HexProofs/Writes/C11LifeMembersFill.lean) -/
+
+/-- **`tf ≤ life` (seconds) on a gap-filled timeframe implies `KeepsPredecessor`** – filled candles are exactly one
+timeframe apart, so a lifespan of at least one timeframe always retains the candle before the newest one -/
+theorem keeps_predecessor_of_fill_le (tf : Int) (htf : 0 < tf) (life : Int) (hle : tf ≤ life)
+    (init : List (Candle F)) (chunks : List (List (Candle F))) (h : RawStream (init ++ chunks.flatten))
+    (hp : RawPlain (init ++ chunks.flatten)) (hnr : ∀ c ∈ init ++ chunks.flatten, Plain c) :
+    KeepsPredecessor (fun s => haSpec (fillSpec tf s)) (closedFilled tf) life init
+      (poppedBy life (haSpec (fillSpec tf init))) chunks :=
+  keepsPredecessor_of_fill_le tf htf life hle init chunks ⟨⟨h.stamped, h.plain, h.sorted, hnr⟩, hp⟩
+
+/-- **Heikin-Ashi + lifespan + `timeframe_fill`, lifespan of at least one timeframe: NO retention hypothesis** -/
+theorem life_schedule_tf_fill_of_le (tf : Int) (htf : 0 < tf) (life : Int) (hle : tf ≤ life) (init : List (Candle F))
+    (chunks : List (List (Candle F))) (h : RawStream (init ++ chunks.flatten))
+    (hp : RawPlain (init ++ chunks.flatten)) (hnr : ∀ c ∈ init ++ chunks.flatten, Plain c) :
+    runSchedule ({ tf := some tf, fill := true, ha := true, lifespan := some life } : MgrCfg) init chunks
+      = .ok { cfg := { tf := some tf, fill := true, ha := true, lifespan := some life },
+              candles := (haSpec (fillSpec tf (init ++ chunks.flatten))).drop
+                (poppedAfter (fun s => haSpec (fillSpec tf s)) life init
+                  (poppedBy life (haSpec (fillSpec tf init))) chunks) } :=
+  fill_ha_life_schedule_of_le tf htf life hle init chunks ⟨⟨h.stamped, h.plain, h.sorted, hnr⟩, hp⟩
+
+/-- **the bound is sharp**: with `life = tf - 1` the manager does not always end with a suffix of the Heikin-Ashi fold
+(120 s filled buckets, lifespan 119 s; replayed on the library: HA-open 65.0 instead of 45.0) -/
+theorem life_schedule_tf_fill_le_sharp :
+    ¬ (∀ (tf : Int), 0 < tf → ∀ (life : Int), tf - 1 ≤ life →
+        ∀ (init : List (Candle Int)) (chunks : List (List (Candle Int))), RawTfHA (init ++ chunks.flatten) →
+        ∃ m d, runSchedule ({ tf := some tf, fill := true, ha := true, lifespan := some life } : MgrCfg) init chunks
+            = .ok m ∧
+          m.candles = (haSpec (fillSpec tf (init ++ chunks.flatten))).drop d) :=
+  C11LifeEx.fill_le_sharp
+
+/-- inside a Hexital: members / the default manager nobody lives on, `fill + HA + lifespan` (under `KeepsPredecessor`,
+and unconditionally for `tf ≤ life`) -/
+example := @member_tf_fill_ha_life
+example := @default_tf_fill_ha_life
+example := @member_tf_fill_ha_life_of_le
+example := @default_tf_fill_ha_life_of_le
+
+#print axioms keeps_predecessor_of_fill_le
+#print axioms life_schedule_tf_fill_of_le
+#print axioms life_schedule_tf_fill_le_sharp
 
 end Hex.C11
